@@ -2,16 +2,16 @@
 # Generates /verif/MANIFEST.json from the table below (kept in one place so that it stays valid).
 import json
 claimed = {
- "C07": ('exploration', 'tx engine: honest transactions of every supported form (transfers v1-v3 with fee / frozen outputs, two-owner multi-signer, kernel-contract invocation, spend of a threshold-account output); for every form ALL single-field mutations reachable by reflection over the pb.Transaction schema, each with and without recomputing the txid, plus foreign-key / replay / swap / removal signature operators; no mutant of a semantic field, signature or signer is admitted (VerifyTx, then SubmitTx on a copy of the node); the unmutated transaction is admitted; digest equal implies semantic content equal over all originals and mutants', 'exhaustive single-field corruption (schema walk) per generated transaction + independent signature verifier'),
+ "C07": ('exploration', 'tx engine: honest transactions of every supported form (transfers v1-v3 with fee / frozen outputs, two-owner multi-signer, kernel-contract invocation, spend of a threshold-account / key-set-account output, two-owner transfer under one aggregated multi-signature) and unauthorised forms (foreign output plain / with forged contract-input record / with forged regulator mark / with a single signature in the aggregate field / under a rogue-key multi-signature); for every form ALL single-field mutations reachable by reflection over the pb.Transaction schema, each with and without recomputing the txid, plus foreign-key / replay / swap / removal signature operators; no mutant of a semantic field, signature or signer is admitted, neither by SubmitTx on a copy of the node nor packed into a block of the entitled producer and processed by Chain.ProcBlock (plain, flagged auto-generated, posing as the award); the unmutated transaction is admitted; digest equal implies semantic content equal over all originals and mutants', 'exhaustive single-field corruption (schema walk) per generated transaction + independent signature verifier'),
  "C08": ('exploration', "block engine: honest blocks of 1-9 transactions from the real miner path; in flight every mutation reachable by reflection over the InternalBlock schema in 5 variants (raw, merkle recomputed, merkle+id recomputed, re-signed by a foreign key with / without its pubkey); VerifyBlock refuses every mutant differing in hashed header fields, ordered tx list or signature; what verifies goes through the real ProcBlock on a copy of the replica whose ledger must not hold a differing block and whose state must equal the producer's", 'single-field corruption (schema walk) of blocks in flight + end-to-end ledger comparison'),
  "C14": ('exploration', "QC engine: real Smr / DefaultSaftyRules / crypto and real xpoa+BFT / tdpos+BFT nodes; certificates assembled from entry kinds {valid member, repeated member, non-member, wrong id, corrupted, key/address mismatch, collector's own}: ALL multisets up to size n+2 for n <= 4 (sliced over runs), sampled up to n = 10, on every entry path (CheckProposal, proposal handler, vote collection, CheckVote, CalVotesThreshold, CheckMinerMatch, ProcBlock); accepted implies valid signatures over the certified id from a quorum of distinct members besides the collector (independent verifier)", 'forged-certificate fault enumeration against an independent verifier'),
  "C09": ('exploration', 'Engine A operation invoke: generated kernel-contract programs (get / put / delete / bounded scan / nested call / copy / failing status / error) go through the real Chain.PreExec, are assembled, then ONE of 11 mutations of read set / write set / transient outputs / requests / limits / gas, or a stale read, or nothing; unmutated must be admitted and its commit must change exactly the write-set keys and declared outputs (raw table diff), everything else must be rejected and change nothing', 'pre-exec = verify = commit differential with single-mutation fault operators'),
  "C10": ('exploration', 'sandbox engine: random Get / Put / Del / Select(bounds, early stop) / Transfer sequences on a real StateSandbox over the real XModel (live, deleted, never-written keys, several buckets, transient bucket, unconfirmed writes) against an overlay-map model per call; RW-set checks, replay over XMReaderFromRWSet, soundness by perturbing every unread backing key, storage read / iterator faults', 'overlay-map reference model + replay + perturbation under injected read faults'),
  "C11": ('exploration', 'ACL engine: rules (thresholds with boundary weights, key sets, nested accounts) created through the real $acl contract; for every generated rule ALL signer subsets over <= 8 URIs plus duplicate / foreign / inner-name variants are evaluated by the real IdentifyAccount / CheckContractMethodPerm against a reference evaluator; sampled through full signed transactions with the rule change pending / confirmed / undone by a reorganisation', 'exhaustive signer-subset enumeration per generated rule + model-based admission oracle'),
- "C12": ('exploration', 'Engine B (coopsim): 2-4 concurrent SubmitTx / locking SelectUtxos / block play requests on one real node as cooperative tasks with planned preemptions at lock and statement granularity; outcomes and final observations must equal some serial order executed on a clone of the pre-state; selectors disjoint, C02/C03 invariants, no deadlock, no crash; injected write error inside the batch', 'seeded schedule exploration (cooperative scheduler) + serial-order equivalence oracle'),
+ "C12": ('exploration', 'Engine B (coopsim): 2-4 concurrent SubmitTx / locking SelectUtxos / block play requests on one real node as cooperative tasks with planned preemptions at lock and statement granularity; outcomes and final observations must equal some serial order executed on a clone of the pre-state; selectors disjoint, C02/C03 invariants, no deadlock, no crash; after the batch every still unspent output a request named is spent alone on the node and on the serial reference (nothing stays locked); injected write error inside the batch', 'seeded schedule exploration (cooperative scheduler) + serial-order equivalence oracle'),
  "C15": ('exploration', 'Engine C: real Smr / QCPendingTree / safety rules / pacemaker / crypto driven with trees of <= 12 (16) proposals in every drawn arrival order (children first, duplicates, competing children), votes, confirmed blocks, explicit rollbacks, crash-restart; after every event: tree shape, exactly-once storage incl. orphan adoption, HighQC monotone, markers are successive ancestors, root only moves to descendants', 'message-order fault exploration with structural invariants after every event'),
  "C16": ('exploration', "schedule engine: (a) tiling sweep of the real tdpos / xpoa scheduling over configuration boxes (quick: slot boundaries +-2 ms over >= 3 terms; thorough: every millisecond) against the tiling oracle; (b) acceptance through the real CheckMinerMatch / ProcBlock for single / tdpos / xpoa / pow with right and wrong proposer, key, slot, receiver clock skew and jumps, PoW targets from the chain's own history with an independent compact decoder", 'bounded sweep + seeded acceptance scenarios with clock faults'),
- "C19": ('exploration', 'governance engine: sequences of Init / Transfer (self, fresh, 0, > balance, huge) / Propose / Vote / Thaw / Lock / UnLock and timer settlements through the real tx pipeline on 1-2 nodes with chain switches; conservation of the sum, locks change only by lock / unlock effects, no transfer below a lock, no negative amounts, on confirmed state and state+pool', 'effect-fold reference model over seeded histories with reorganisations'),
+ "C19": ('exploration', 'governance engine: sequences of Init / Transfer (self, fresh, 0, > balance, huge) / Propose / Vote / Thaw / Lock / UnLock / the real $tdpos nominate, revoke, vote and revoke-vote methods and timer settlements through the real tx pipeline on 1-2 nodes with chain switches; conservation of the sum, locks change only by lock / unlock effects, no transfer below a lock, no negative amounts, on confirmed state and state+pool', 'effect-fold reference model over seeded histories with reorganisations'),
  "C20": ('exploration', 'p2p engine: (a) every message built by the real NewMessage crosses the simulated wire; ALL single-bit flips (payloads <= 48 bytes) and seeded bursts <= 32 bits of the encoded payload must be detected; response-type map injective; (b) real Dispatcher under 1-3 concurrent tasks of Register / UnRegister / Dispatch with planned preemptions: porcupine linearizability against a subscriber-set model, exactly-once delivery to exactly the matching subscribers, de-duplication window across clock steps', 'corruption fault enumeration + linearizability (porcupine) of seeded schedules'),
  "C01": ("exploration", "Engine A (chainsim): seeded plans of tx / kv-contract tx / mine / deliver / walk (cross-fork, prune) / reopen / clock steps on 1-3 real nodes; after every step the node is compared (a) with a fresh node that plays genesis..B and re-admits the pool and (b) with the reference model S(B)+pool (U table, totals, key values and versions, scans)", "differential fresh replay + reference model over seeded histories"),
  "C02": ("exploration", "Engine A: conservation sums (table U + pending fees = GetTotal = sum of coinbase outputs of applied blocks; balance = sum of own outputs; every admitted tx balanced) after every step, including failed and adversarial submissions (unbalanced amounts, huge / zero / leading-zero encodings, duplicated inputs, coinbase flag, second coinbase, wrong award)", "conservation invariants checked after every simulated step"),
